@@ -189,3 +189,42 @@ prop(
     assumptions=["stdlib crypto/hmac is the RFC 2104 reference",
                  "sync.Pool placement is up to the runtime; the evidence counter acquires_that_returned_a_recycled_object reports how often reuse was actually observed"],
 )
+
+prop(
+    "C13",
+    timeout={"quick": 300, "thorough": 3000},
+    max_counters=["abstract_states_visited_max_per_batch"],
+    rule="exhaustive: every call sequence of length 5 (quick) / 6 (thorough) over the 27-symbol alphabet {Start(id,t) 3x4, Stop(id) 3, "
+         "StopWithError(id) 3, Process(id) 3, Collect(t) 4, SetHandler, Close} on a fresh Agent, every call's return class and event "
+         "multiset (id, class, receiving handler) compared online with the executable transaction-table model (time points t0<t1<t2<t3 so "
+         "that deadline == collect time is hit); plus long random sequences (200..400 calls, 64 ids, deadlines on both sides of the "
+         "collect times, handlers that call Start back into the agent from inside an event). evaluations = sequences; "
+         "distinct_nontrivial = distinct leading call pairs + distinct abstract table states visited + random sequences",
+    assumptions=[
+        "the model in harness/props/agentmodel.go is the statement of C13 transcribed: Collect(t) times out exactly deadline < t; Process always emits and unregisters",
+        "handlers do not call back into the agent from a Close event (documented deadlock: Close holds the lock)",
+    ],
+)
+
+prop(
+    "C14",
+    configs={"quick": ["race", "rel"], "thorough": ["race", "rel"]},
+    batches={"quick": 8, "thorough": 16},
+    race_batches={"quick": 8, "thorough": 16},
+    timeout={"quick": 400, "thorough": 3000},
+    race_factor=2,
+    rule="short concurrent histories: 2..16 goroutines x 6..10 random calls (Start/Stop/StopWithError/Process/Collect/SetHandler/Close) on "
+         "one Agent over 3 ids and 4 time points, released by a start barrier, handlers yielding to widen the unlock->emit window, one "
+         "history in ten with handlers that call Start/Stop back into the agent. Every call is recorded at the caller boundary "
+         "{client, input, call ts, (error class, event multiset incl. receiving handler), return ts} with one atomic clock and handler "
+         "events attributed by goroutine id; each history is checked with porcupine v1.3.0 against the C13 model; the race build runs the "
+         "same under the Go race detector; a watchdog looks for goroutines parked inside agent methods. A history without overlapping "
+         "calls, or a checker timeout, is inconclusive. evaluations = histories checked; distinct_nontrivial = distinct recorded "
+         "histories (by full content) that had overlap and were judged",
+    counter_floors={"quick": {"overlapping_call_pairs": 1000, "porcupine_ok": 100}, "thorough": {"overlapping_call_pairs": 50000, "porcupine_ok": 5000}},
+    assumptions=[
+        "the sequential specification is harness/props/agentmodel.go (same as C13)",
+        "events are attributed to the call during which the handler ran on the calling goroutine",
+        "the schedule is not reproducible; a violation's replay file carries the recorded history",
+    ],
+)
